@@ -545,7 +545,7 @@ func (dc *ClientDnsConnection) TestDownstreamEncoder(trycodec enc.Encoder) error
 
 		for k := 0; k < len(util.DownloadCodecCheck); k++ {
 			if resp.Data[k] != util.DownloadCodecCheck[k] {
-				return errors.Wrapf(err, "reply cannot be matched, unreiable: %+v", err)
+				return errors.Errorf("reply cannot be matched, unreliable: differs at byte %d", k)
 			}
 		}
 
